@@ -34,6 +34,11 @@ def contracts_install(sym):
     __import__('props.contracts', fromlist=['x']).install(sym, sym.m)
 
 
+def contracts_install_nodz(sym):
+    """as above, for claims about completed calls only: divisors are assumed non-zero without a separate division-by-zero path"""
+    contracts_install(sym); sym.check_divzero = False; sym.prune = False
+
+
 def unit_sample(names):
     """replace direction triples by exact rational unit vectors for executor validation"""
     PY = [(Fraction(3, 5), Fraction(4, 5), Fraction(0)), (Fraction(2, 3), Fraction(1, 3), Fraction(2, 3)), (Fraction(0), Fraction(-1), Fraction(0)),
@@ -193,6 +198,13 @@ def cases(T):
     add('O5.triangle_intersect_hit', 'w_tri_intersect{T}', [In('l', 6), In('v0', 3), In('v1', 3), In('v2', 3), Out('pt', 3), Out('bary', 3), Out('front', 1)], tri,
         pre=lambda I: boxed(I['l'][:3] + I['v0'] + I['v1'] + I['v2']) + [unit(I['l'][3:])], sample=unit_sample([('l', 3)]), core=False, tier='thorough', budget=900, timeout_ms=60000, nvalid=0,
         desc='triangle intersect: when true, the hit point is on the line and equals the barycentric combination with non-negative weights summing to 1')
+    def trifront(I, O, X):
+        d = I['l'][3:]; v0, v1, v2 = I['v0'], I['v1'], I['v2']; ok = asb(O['ret'])
+        n = cross3(vsub(v2, v1), vsub(v1, v0))
+        return [('true => front is the documented flag ((v2-v1)%(v1-v0)) ^ dir < 0', IMPLIES(ok, AND(IMPLIES(eq(O['front'][0], rz(1)), lt(rdot(n, d), rz(0))), IMPLIES(lt(rdot(n, d), rz(0)), eq(O['front'][0], rz(1))))))]
+    add('O5.triangle_front_flag', 'w_tri_intersect{T}', [In('l', 6), In('v0', 3), In('v1', 3), In('v2', 3), Out('pt', 3), Out('bary', 3), Out('front', 1)], trifront,
+        pre=lambda I: boxed(I['l'][:3] + I['v0'] + I['v1'] + I['v2']) + [unit(I['l'][3:])], sample=unit_sample([('l', 3)]), budget=240, timeout_ms=20000, nvalid=0, setup=contracts_install_nodz, allow_divzero=True,
+        desc='triangle intersect: when it reports a hit, front is exactly the documented flag - the sign of ((v2-v1)%(v1-v0)) ^ line.dir - wherever line.pos lies relative to the triangle (in front, on, or beyond its plane)')
     return cs
 
 
